@@ -165,6 +165,20 @@ def from_blackbird_to_tdm(bb: blackbird.BlackbirdProgram) -> TDMProgram:
     return prog
 
 
+def _tdm_array(values) -> np.ndarray:
+    """Per-time-bin values as a Blackbird array variable (one row).
+
+    Blackbird can only serialize integer, float and complex arrays; an object array is
+    returned only if the values do not have a common numeric type."""
+    try:
+        array = np.array([values])
+    except ValueError:  # ragged values
+        array = None
+    if array is not None and array.dtype.kind in "iufc":
+        return array
+    return np.array([values], dtype=object)
+
+
 def to_blackbird(prog: Program, version: str = "1.0") -> blackbird.BlackbirdProgram:
     """Convert a Strawberry Fields Program to a Blackbird Program.
 
@@ -264,7 +278,7 @@ def to_blackbird(prog: Program, version: str = "1.0") -> blackbird.BlackbirdProg
         )
         bb._var.update(
             {
-                f"{p.name}": np.array([prog.tdm_params[i]], dtype=object)
+                f"{p.name}": _tdm_array(prog.tdm_params[i])
                 for i, p in enumerate(prog.loop_vars)
             }
         )
